@@ -388,6 +388,7 @@ class Unit:
         self.rewrites = []
         self.spec_files = []
         self.imports = []
+        self.has_canary = False
 
     def emit(self, text, origin):
         self.segments.append((text, origin))
@@ -488,6 +489,10 @@ def generate(unit_name):
         if f not in u.spec_files: u.spec_files.append(f)
         m = DIRECTIVE.match(l)
         if not m:
+            if re.match(r'^\}\s*//\s*verus!', l) and f == spec_path:
+                # vacuity guard: this must FAIL; if Verus proves it the environment is inconsistent
+                u.emit('proof fn verif_canary() ensures false {}\n', ('spec', f, n))
+                u.has_canary = True
             u.emit(l + '\n', ('spec', f, n)); i += 1; continue
         d = m.group(1).strip()
         words = d.split()
